@@ -31,10 +31,10 @@ CHECKS = {
   technique="TLA+ spec (Verdict.tla) exhaustively enumerated with TLC; every vector replayed into document.Session/DocumentEx.Summary"),
  "C13": dict(
   category="model_checking",
-  text="ReadFile.tla models SELECT, the 4-byte header read, the length computation, the read loop with Le = min(maxLe, remaining), the first-block fall-back ladder and the chunk limit, with the chip as a separate process choosing response sizes, caps, Le rejections and short-EF-identifier semantics for P1 bit 8; TLC checks Exact / NotFound / Bounded over the product of file shapes, read sizes and chip behaviours (6M states quick) and termination under fairness; the as-built switch (offsets >= 32768 in P1) must yield the counterexample the known finding names. The real NfcSession.ReadFile is run against the independent chip simulator over the same grid plus seeded random shapes, plain and under 3DES/AES secure messaging; returned bytes are compared with the stored object and every recorded SELECT / READ BINARY / outcome sequence is validated against Trace_ReadFile.",
+  text="ReadFile.tla models SELECT, the 4-byte header read, the length computation, the read loop with Le = min(maxLe, remaining), the first-block fall-back ladder and the chunk limit, with the chip as a separate process choosing response sizes, caps, Le rejections and short-EF-identifier semantics for P1 bit 8; TLC checks Exact / NotFound / Bounded over the product of file shapes, read sizes and chip behaviours (6M states quick) and termination under fairness; the as-built switch (offsets >= 32768 in P1) must yield the counterexample the known finding names. The real NfcSession.ReadFile is run against the independent chip simulator over the same grid plus seeded random shapes, plain and under 3DES/AES secure messaging; returned bytes are compared with the stored object and every recorded SELECT / READ BINARY / outcome sequence is validated against Trace_ReadFile; SELECT is answered with every status of the classes 61..6F and 9xxx ('not found' only for 6A82 / 6283). ReadSession.tla extends the model to a SESSION of reads (what outlives a ReadFile call: the working Le; link faults at any loop read; ExactEach, ReadableEach, LeMonotone; the designs with a session-level assembly buffer / with the ladder only for the first file must yield their counterexamples): the 56k finished sessions TLC prints (files, settings, fault script, result of every read) are replayed into one real NfcSession (quick: a stratified sample) and every read compared byte for byte with the chip's file and with the specification's result.",
   design_ref="DESIGN.md §6 C13",
   note="Chip behaviours are those of harness/chipsim (ISO 7816-4 READ BINARY semantics); an error outcome is never a C13 violation.",
-  technique="TLA+ spec (ReadFile.tla) model-checked with TLC; traces of the real ReadFile against a chip simulator validated against Trace_ReadFile; direct byte comparison"),
+  technique="TLA+ specs (ReadFile.tla, ReadSession.tla) model-checked with TLC; traces of the real ReadFile against a chip simulator validated against Trace_ReadFile; TLC-generated session histories replayed into the real NfcSession; direct byte comparison"),
 
  "C01": dict(
   category="model_checking",
@@ -50,7 +50,7 @@ CHECKS = {
   technique="TLA+ spec (PassiveAuth.tla, Genuine/Completeness) + issued documents over the profile matrix run through the real code and validated against Trace_PassiveAuth"),
  "C03": dict(
   category="model_checking",
-  text="SM.tla models terminal (one action per step of DoAPDU / Decode, check by check), chip (9303-11 9.8) and a Dolev-Yao link adversary with labelled moves (alter / withhold command; short, garbage, unprotected, replay of any seen response, cross-session, outer status, DO value, both statuses, delete / duplicate / re-order / extra data objects, forged DO'87' / DO'85' carrying junk or the cryptogram of an earlier response, in front of the genuine objects or behind DO'8E'); TLC checks Authentic, Lockstep, HonestDelivers exhaustively for the intended design (no counter roll-back; 61k states, modulus 16, 3 exchanges, wrap inside the run) and must find the roll-back/replay counterexample for the as-built switch. Every behaviour of the as-built model with <= 2 adversary moves (8.8k quick, 3 exchanges thorough) is replayed byte for byte into the real NfcSession.DoAPDU against the chip simulator for 3DES / AES-128/192/256 and initial counters incl. carries across every octet boundary and FF..FD: delivered data / status are compared with what the chip produced for that very command, outcome and counter with the model; plus a single-bit sweep over genuine responses of every shape.",
+  text="SM.tla models terminal (one action per step of DoAPDU / Decode, check by check), chip (9303-11 9.8) and a Dolev-Yao link adversary with labelled moves (alter / withhold command; short, garbage, unprotected, replay of any seen response, cross-session, outer status, DO value, both statuses, delete / duplicate / re-order / extra data objects, forged DO'87' / DO'85' carrying junk or the cryptogram of an earlier response, in front of the genuine objects or behind DO'8E'); TLC checks Authentic, Lockstep, HonestDelivers exhaustively for the intended design (no counter roll-back; 61k states, modulus 16, 3 exchanges, wrap inside the run) and must find the roll-back/replay counterexample for the as-built switch. Every behaviour of the as-built model with <= 2 adversary moves (8.8k quick, 3 exchanges thorough) is replayed byte for byte into the real NfcSession.DoAPDU against the chip simulator for 3DES / AES-128/192/256 and initial counters incl. carries across every octet boundary and FF..FD: delivered data / status are compared with what the chip produced for that very command, outcome and counter with the model; plus a single-bit sweep over genuine responses of every shape and a sweep of the move 'outer status' over every first status octet.",
   design_ref="DESIGN.md §6 C03",
   note="Symbolic MAC/encryption in the model; chip side is harness/chipsim; known finding: replay accepted after an unprotected response (deliberate counter roll-back).",
   technique="TLA+ spec (SM.tla) model-checked with TLC; TLC-enumerated adversary behaviours replayed into NfcSession.DoAPDU against an independent chip; bit-flip sweep"),
@@ -74,10 +74,10 @@ CHECKS = {
   technique="TLA+ spec (Pace.tla) with TLC; scenario x concrete matrix replayed into pace.DoPACE against an independent chip with forced edge slices"),
  "C06": dict(
   category="model_checking",
-  text="ChipAuth.tla models CA v1 with chip strategies genuine / random keys / old session / no session / other key / replayed response / refusal; TLC checks Soundness and Completeness; binding: real chipauth.DoChipAuth after a real BAC against the chip simulator over curves 8..18 x named / explicit parameters x 3DES (announced or inferred -> MSE:Set KAT) / AES-128/192/256 x key-id arrangements (none, 1, 0, two keys), terminal scalars forcing a shared secret with a leading zero octet through the key-generation hook, and every impostor strategy; success requires the chip-side record that the certified private key was used, equal keys and restarted counter and a subsequent read under the new session. (PACE-CAM half: C04.)",
+  text="ChipAuth.tla models CA v1 with chip strategies genuine / random keys / old session / no session / other key / replayed response / refusal; TLC checks Soundness and Completeness; binding: real chipauth.DoChipAuth after a real BAC against the chip simulator over curves 8..18 x named / explicit parameters x 3DES (announced or inferred -> MSE:Set KAT) / AES-128/192/256 x key-id arrangements (none, 1, 0, two keys), terminal scalars forcing a shared secret with a leading zero octet through the key-generation hook, and every impostor strategy; success requires the chip-side record that the certified private key was used, equal keys and restarted counter and a subsequent read under the new session. CaSelect.tla models which key and suite terminal (selectCAInfo / inferCAInfoFromKey / selectCAPubKeyInfo, one operator each) and chip (DO'84') settle on over all DG14 arrangements of one or two keys with independent optional key ids on the public key and on its ChipAuthenticationInfo (4160 arrangements, SelectOK on the 121 conforming ones; the 'identical ids' design must violate it): all 121 are personalised and run, the chip-side record must show the key and suite the specification names. (PACE-CAM half: C04.)",
   design_ref="DESIGN.md §6 C06",
   note="Chip side is harness/chipsim.",
-  technique="TLA+ spec (ChipAuth.tla) with TLC; strategies x concrete matrix replayed into chipauth.DoChipAuth against an independent chip"),
+  technique="TLA+ specs (ChipAuth.tla, CaSelect.tla) with TLC; strategies x concrete matrix and every TLC-enumerated DG14 arrangement replayed into chipauth.DoChipAuth against an independent chip"),
  "C07": dict(
   category="model_checking",
   text="ActiveAuth.tla models the challenge plumbing (caller-supplied or generated challenge -> wire -> evidence -> offline verification with none / same / different challenge) and response classes; TLC checks Plumbing, Exact, HardFail, Reproduces on all 24 scenarios; binding: real DoActiveAuth / ValidateActiveAuthSignature / Verifier.Verify against the chip simulator's independent ISO 9796-2 signer (moduli 1024..4096 incl. 1029 / 1031 bits, all five trailers) and ECDSA signer (11 curves, plain and DER), with genuine, replayed, impostor and mutated responses (bit flip, truncation, zero, empty, s+n, wrong trailer), and ground genuine plain r||s signatures that start like a DER header (30 3E); validity of the bytes the library saw is decided by the harness' own verifier.",
@@ -87,7 +87,7 @@ CHECKS = {
 
  "C08": dict(
   category="model_checking",
-  text="Session.tla composes the 13 pipeline steps of reader.ReadDocument over a chip configuration record (access arrangement bac / pace / pace+bac / cam / cam+bac, data-group subsets, AA none/rsa/ecdsa, CA, issuer trusted, chip kind) and reader options (skip PACE, skip images, MRZ / CAN): TLC checks the C08 clauses (every listed and stored data group obtained, each supported mechanism successful, PA iff issuer trusted) and the C02 end-to-end clauses on all 7808 (configuration, options) pairs and prints the expected outcome of each. Binding: for the genuine configurations (a sixth in quick, all x3 in thorough) a passport is personalised with random concrete variety (PACE / CA curves and suites, AA key types, CSCA/DS signature profiles, hash-list order of EF.SOD, DG13 sizes at length boundaries up to 30000 and with a longer-than-shortest outer length, chip response caps, Le limits, extended length on/off, read sizes 100..65536) and read with the real Reader.ReadDocument against the chip simulator; every file is compared byte for byte with the chip's, every step outcome, verdict, the set of data groups and the ReaderStatus phase sequence with the model's expectation, and every success with the chip's own completion record. Beyond the listed clauses, the chip-side command record of every read is validated against Wire.tla (the command language of a read: which command may follow which answer) by Trace_Wire; divergences are reported as notes and counted.",
+  text="Session.tla composes the 13 pipeline steps of reader.ReadDocument over a chip configuration record (access arrangement bac / pace / pace+bac / cam / cam+bac, data-group subsets, AA none/rsa/ecdsa, CA, issuer trusted, chip kind) and reader options (skip PACE, skip images, MRZ / CAN): TLC checks the C08 clauses (every listed and stored data group obtained, each supported mechanism successful, PA iff issuer trusted) and the C02 end-to-end clauses on all 7808 (configuration, options) pairs and prints the expected outcome of each. Binding: for the genuine configurations (a sixth in quick, all x3 in thorough) a passport is personalised with random concrete variety (PACE / CA curves and suites, AA key types, CSCA/DS signature profiles, hash-list order of EF.SOD, DG13 sizes at length boundaries up to 30000 and with a longer-than-shortest outer length, chip response caps, Le limits, extended length on/off, read sizes 100..65536) and read with the real Reader.ReadDocument against the chip simulator; every file is compared byte for byte with the chip's, every step outcome, verdict, the set of data groups and the ReaderStatus phase sequence with the model's expectation, and every success with the chip's own completion record. Beyond the listed clauses, the chip-side command record of every read is validated against Wire.tla (the command language of a read: which command may follow which answer) by Trace_Wire; divergences are reported as notes and counted. 'Any per-read size the chip tolerates' along a session: the session histories of ReadSession.tla (see C13) are replayed and every read the specification completes must be completed by the real NfcSession.",
   design_ref="DESIGN.md §6 C08",
   note="Premise of the success clause stated in the evidence file (read size within what the chip's length format supports, first read returns the complete TLV header).",
   technique="TLA+ spec (Session.tla) with TLC; expected outcome per configuration replayed into Reader.ReadDocument against an independent chip and issuing PKI"),
@@ -99,7 +99,7 @@ CHECKS = {
   technique="TLA+ spec (Session.tla) continuation table + exhaustive single-fault enumeration over every exchange of real reads against an independent chip"),
  "C14": dict(
   category="model_checking",
-  text="Evidence.tla writes the three offline evidence verifiers (pace.VerifyEvidence for PACE-CAM, chipauth.VerifyEvidence, activeauth.VerifyEvidence) as chains of checks over a symbolic Diffie-Hellman / MAC / signature term algebra; TLC checks that the genuine capture verifies, that replacing ANY single field (10 CAM + 4 CA + 3 AA fields) by a fresh value of the same type makes the corresponding verifier fail, that the documented joint replacement of ChipKaPub+EcadIC is the only two-field exception, and that the pre-repair design (algorithm field not compared) has the gap; a state machine live read -> export -> tamper (none / any field of a present mechanism / the joint replacement / a document file) -> offline verification over every set of mechanisms a live session can leave evidence of gives the expected offline verdict VECTOR of each case (Reproduces, FieldTamperDetected incl. 'every other verdict stays as it was live', FileTamperDetected, OnlyJointPasses). Binding: live sessions of the real Reader against the chip simulator over the mechanisms (CA after BAC / after PACE, PACE-CAM, AA-RSA, AA-ECDSA, AA+CAM with untrusted issuer) with random curves / suites / key sizes are exported with the real ToCbor and verified offline with the real Verifier: the verdict vector (PA, completeness, AA, CAM, CA) and Summary must equal the live ones; then every evidence field named by the specification is replaced by each value-changing mutation (bit flip, shorter, longer, empty, oversized, the same field of ANOTHER genuine session of the same passport, other OIDs / parameter ids) and every obtained data group gets byte flips: the corresponding offline verdict must fail and, for field changes, the rest of the vector must be the one Evidence.tla gives for that (live set, live PA verdict, field).",
+  text="Evidence.tla writes the three offline evidence verifiers (pace.VerifyEvidence for PACE-CAM, chipauth.VerifyEvidence, activeauth.VerifyEvidence) as chains of checks over a symbolic Diffie-Hellman / MAC / signature term algebra; TLC checks that the genuine capture verifies, that replacing ANY single field (10 CAM + 4 CA + 3 AA fields) by a fresh value of the same type makes the corresponding verifier fail, that the documented joint replacement of ChipKaPub+EcadIC is the only two-field exception, and that the pre-repair design (algorithm field not compared) has the gap; a state machine live read -> export -> tamper (none / any field of a present mechanism / the joint replacement / a document file) -> offline verification over every set of mechanisms a live session can leave evidence of gives the expected offline verdict VECTOR of each case (Reproduces, FieldTamperDetected incl. 'every other verdict stays as it was live', FileTamperDetected, OnlyJointPasses). Binding: live sessions of the real Reader against the chip simulator over the mechanisms (CA after BAC / after PACE, PACE-CAM, AA-RSA, AA-ECDSA, AA+CAM with untrusted issuer) with random curves / suites / key sizes are exported with the real ToCbor and verified offline with the real Verifier: the verdict vector (PA, completeness, AA, CAM, CA) and Summary must equal the live ones; then every evidence field named by the specification is replaced by each value-changing mutation (bit flip, shorter, longer, empty, oversized, the same field of ANOTHER genuine session of the same passport, other OIDs / parameter ids) and every obtained data group gets byte flips: the corresponding offline verdict must fail and, for field changes, the rest of the vector must be the one Evidence.tla gives for that (live set, live PA verdict, field). Signatures are additionally replaced by the other representations Evidence.tla knows for the same (key, message): S + N, r + n, s + n must fail (OutOfRangeDetected); ECDSA's (r, n - s) verifies - TLC shows CongruentSignatureDetected false for the as-built verifier and the real one confirms it: known finding. 'Genuine evidence always verifies' is run over a matrix of every curve for PACE-CAM and CA (P-521 repeatedly).",
   design_ref="DESIGN.md §6 C14",
   note="Value-preserving changes (leading zero octets of scalars, emptied SmSsc when the counter was 2 - documented legacy default, octets after a DER signature) are outside; EF.SOD / CardSecurity byte changes are judged by C01.",
   technique="TLA+ spec (Evidence.tla) checked with TLC: every single-field replacement must fail; fields named by the spec tampered in real exports and verified with the real Verifier against live sessions with an independent chip"),
@@ -117,7 +117,7 @@ CHECKS = {
   technique="TLA+ spec (LdsView.tla) enumerated with TLC; specified view per shape and life-cycle behaviours replayed into the real constructors, compared with an independent reference decoding"),
  "C20": dict(
   category="model_checking",
-  text="Concurrency.tla models (1) one shared reader / verifier: configuration, one mutex, setters and the long call split into Call / Acquire / Write / Snapshot / Exchange / Release so that TLC explores every interleaving of three goroutines' programs (Mutex, NoInterleaving of the exchanges the chip sees, Linearizable: every long call used exactly the configuration a sequential execution in lock order gives it); the designs without whole-call locking (snapshot under the lock, then release), without the mutex, and with a verification context shared between independent verifications must each yield their counterexample; (2) independent verifications sharing one trust store, each with its own reference time (AsIfAlone); (3) the sync.Once-built trust store (InitOnce, AllSeeThePool). Binding: every schedule of the forcible sub-model (start a call / let a call perform its next exchange; 134 behaviours) is forced on real mobile.Reader, reader.Reader and verifier.Verifier objects through gates in the Transceiver / CertPool interfaces; the controller's observations (call, blocked-at-gate, gate opened, return with the configuration the chip saw: PACE attempted, DG2 selected, challenge on the wire, Le of READ BINARY) are validated against Trace_Concurrency, where lock acquisitions are unobserved internal steps placed by TLC, and the chip-side order of exchanges must be one block per call; every interleaving of three independent passive authentications at the pool-lookup gates (documents whose chains are valid at disjoint times) must give the lone result; 32 racing callers initialise the built-in trust store once (hook event count); a contended random workload runs in a -race build of the driver, any race report is a violation.",
+  text="Concurrency.tla models (1) one shared reader / verifier: configuration, one mutex, setters and the long call split into Call / Acquire / Write / Snapshot / Exchange / Release so that TLC explores every interleaving of three goroutines' programs (Mutex, NoInterleaving of the exchanges the chip sees, Linearizable: every long call used exactly the configuration a sequential execution in lock order gives it); the designs without whole-call locking (snapshot under the lock, then release), without the mutex, and with a verification context shared between independent verifications must each yield their counterexample; (2) independent verifications sharing one trust store, each with its own reference time (AsIfAlone); (3) the sync.Once-built trust store (InitOnce, AllSeeThePool). Binding: every schedule of the forcible sub-model (start a call / let a call perform its next exchange; 134 behaviours) is forced on real mobile.Reader, reader.Reader and verifier.Verifier objects through gates in the Transceiver / CertPool interfaces; the controller's observations (call, blocked-at-gate, gate opened, return with the configuration the chip saw: PACE attempted, DG2 selected, challenge on the wire, Le of READ BINARY) are validated against Trace_Concurrency, where lock acquisitions are unobserved internal steps placed by TLC, and the chip-side order of exchanges must be one block per call; every interleaving of three independent passive authentications at the pool-lookup gates (documents whose chains are valid at disjoint times) must give the lone result; 32 racing callers initialise the built-in trust store once (hook event count); a contended random workload runs in a -race build of the driver, any race report is a violation; fresh processes of that build whose FIRST library calls are already parallel (independent verifiers over one trust store, independent readers, mobile verifiers) cover lazily initialised tables (cold starts).",
   design_ref="DESIGN.md §6 C20",
   note="Schedules are forced at the granularity of the public gates (transceiver exchanges, pool lookups); finer interleavings inside the Go runtime are sampled by the race-detector run, not enumerated.",
   technique="TLA+ spec (Concurrency.tla) model-checked with TLC; forced schedules on the real shared objects recorded and validated against Trace_Concurrency; Go race detector on a contended driver"),
